@@ -49,7 +49,7 @@ structure PassOK (i : Nat) (s : St X) (r : Step X) : Prop where
   rep : ∀ out s', r = .done out s' →
     (∃ k, out = .ret .converged .solved k) ∨
     (∃ m k, out = .ret .error m k ∧ (m = .timeLimit ∨ m = .singular ∨ m = .lineSearch)) ∨
-    (out = .crash ∧ o.btMaxiter = 0)
+    (out = .crash ∧ o.btMaxiter = 0 ∧ o.zeroSafe = false)
 
 theorem pass_ok {i : Nat} {s : St X} (g : Good wd o i s) : PassOK wd o i s (pass wd o i s) := by
   obtain ⟨fx, fl, fu, fe, fe', fn⟩ := fresh_spec wd o g
@@ -77,11 +77,12 @@ theorem pass_ok {i : Nat} {s : St X} (g : Good wd o i s) : PassOK wd o i s (pass
         by_cases hbt : (o.bt && decide (i ≥ o.btStartIter)) = true
         · simp only [hbt, if_true]
           unfold btPass
-          by_cases hb0 : o.btMaxiter = 0
+          by_cases hb0 : (decide (o.btMaxiter = 0) && !o.zeroSafe) = true
           · simp only [hb0, if_true]
+            have hb0' : o.btMaxiter = 0 ∧ o.zeroSafe = false := by simpa using hb0
             exact ⟨fun _ _ _ h => (by cases h), fun _ h => (by cases h), fun _ _ h => (by cases h; simp only; omega),
-              fun _ h => (by cases h), fun _ _ h => (by cases h; exact Or.inr (Or.inr ⟨rfl, hb0⟩))⟩
-          · simp only [hb0, if_false]
+              fun _ h => (by cases h), fun _ _ h => (by cases h; exact Or.inr (Or.inr ⟨rfl, hb0'.1, hb0'.2⟩))⟩
+          · simp only [hb0]
             obtain ⟨a, _, hu, hacc, hnot⟩ := lsLoop_spec wd o (fresh wd s).1.x d (fresh wd s).2 o.btMaxiter 0 1
               { (fresh wd s).1 with useR := true }
             simp only at a hu
@@ -171,13 +172,15 @@ def Reported (out : Outcome) : Prop :=
 
 theorem outer_reported (n : Nat) :
     ∀ (i : Nat) (s : St X), Good wd o i s → Reported (outer wd o i n s).1 ∨
-      ((outer wd o i n s).1 = .crash ∧ (o.maxiter = 0 ∨ o.btMaxiter = 0)) := by
+      ((outer wd o i n s).1 = .crash ∧ (o.maxiter = 0 ∨ o.btMaxiter = 0) ∧ o.zeroSafe = false) := by
   induction n with
   | zero =>
     intro i s _
     simp only [outer]
     split
-    · rename_i h; exact Or.inr ⟨rfl, Or.inl h⟩
+    · rename_i h
+      have h' : o.maxiter = 0 ∧ o.zeroSafe = false := by simpa using h
+      exact Or.inr ⟨rfl, Or.inl h'.1, h'.2⟩
     · exact Or.inl (Or.inr ⟨_, _, rfl, by simp⟩)
   | succ n ih =>
     intro i s g
@@ -187,11 +190,11 @@ theorem outer_reported (n : Nat) :
     | done out s' =>
       rw [hp] at pk
       simp only
-      rcases pk.rep out s' rfl with h | ⟨m, k, h, hm⟩ | ⟨h, hb⟩
+      rcases pk.rep out s' rfl with h | ⟨m, k, h, hm⟩ | ⟨h, hb, hz⟩
       · exact Or.inl (Or.inl h)
       · refine Or.inl (Or.inr ⟨m, k, h, ?_⟩)
         rcases hm with e | e | e <;> simp [e]
-      · exact Or.inr ⟨h, Or.inr hb⟩
+      · exact Or.inr ⟨h, Or.inr hb, hz⟩
     | next s' =>
       rw [hp] at pk
       exact ih (i + 1) s' (pk.next s' rfl)
